@@ -27,8 +27,44 @@ def _zip_mean(net, bus):
                                                        "const_z_q_percent", "const_i_q_percent"))
 
 
+BUS_ELEMENT_DEVS = ("load", "sgen", "gen", "ext_grid", "shunt", "ward", "xward", "storage", "motor")
+
+
+def _chains(net, case, opt, tier):
+    """Collision bus -> row of 4 (thorough: also 5) buses coupled by closed z=0 switches, EVERY orientation x creation
+    order of the switches (the union-find of create_bus_lookup depends on both and on which bus is PV / active).
+    quick: plain base nets at every collision bus under ac and ac_nonumba; nets whose single deviation puts a bus
+    element on a collision bus at the first collision bus under ac (numba path)."""
+    if case.get("zip") or case.get("composite") or opt not in ("ac", "ac_nonumba"):
+        return []
+    hot = na.HOT[case["base"]]
+    devs = case["devs"]
+    quick = tier == "quick"
+    if not devs:
+        T = []
+        for b in hot:
+            T += tf_.enum_chains(net, b, 4, places=("spread",) if quick else ("spread", "ends"),
+                                 pos0s=(0,) if quick else (0, 1))
+        if not quick:
+            T += tf_.enum_chains(net, hot[0], 5)
+        return T
+    if len(devs) == 1 and devs[0][0] in BUS_ELEMENT_DEVS and devs[0][1] in hot and (opt == "ac" or not quick):
+        if quick and not (devs[0][0] in ("gen", "ext_grid", "xward", "load", "shunt")
+                          and devs[0] == _first_of_kind(case["base"], devs[0][0])):
+            return []       # quick: one PV, one slack, one xward (aux bus), one PQ and one shunt neighbour per base
+        return tf_.enum_chains(net, hot[0], 4)
+    return []
+
+
+def _first_of_kind(base, kind):
+    for d in ba.menu(base):
+        if d[0] == kind and d[1] in na.HOT[base]:
+            return d
+    return None
+
+
 def run_case(case):
-    net_in = na.build(case)
+    net_in = ba.build(case)
     tf_.check_alphabet(net_in)
     out = {"violations": [], "n": 0, "counts": {}, "sig": []}
     base = {"base": case["base"], "devs": case["devs"]}
@@ -55,6 +91,7 @@ def run_case(case):
                      if tf_.level_applies(lvl, opt, case["opts"], tier)]
             if case.get("zip"):
                 T = [t for t in T if t[0] in ("split", "split_zip")]
+            T = T + _chains(net_in, case, opt, tier)
         for t in T:
             oc2, vs = _pair(net_in, net0, opt, t, base)
             out["n"] += 1
@@ -77,7 +114,8 @@ def _pair(net_unsolved, net_solved, opt, t, base):
     kind = t[0]
     clause = {"sn": "sn_mva", "relabel": "relabel", "rowperm": "row_permutation", "split": "split_pq",
               "split_zip": "split_zip_load", "unparallel": "parallel_lines", "swapline": "swap_from_to",
-              "add": "added_inactive_element", "splitbus": "fused_bus_split", "relabel_all": "relabel",
+              "add": "added_inactive_element", "splitbus": "fused_bus_split", "chain": "fused_bus_chain",
+              "relabel_all": "relabel",
               "rowperm_all": "row_permutation", "split_all": "split_pq", "swap_all": "swap_from_to"}[kind]
     if base.get("zip"):
         clause = "split_zip_load"
